@@ -162,13 +162,13 @@ func runC04(c *core.Ctx) {
 		actF := c.Field("bus/net", "Header", "Action")
 		idF := c.Field("bus/net", "Header", "ID")
 		rs := matchedReturns(cc.filter)
-		for _, fe := range []struct {
+		for k, fe := range []struct {
 			f    *types.Var
 			want string
 		}{{svcF, "service"}, {objF, "object"}, {actF, "action"}} {
 			ok := len(rs) > 0
 			for _, r := range rs {
-				if !core.Guarded(cc.filter, r, hdrFieldEqParam(fe.f, fe.want)) {
+				if !core.Guarded(cc.filter, r, hdrFieldEqParam(fe.f, cc.fn, k, cc.subst)) {
 					ok = false
 				}
 			}
@@ -177,15 +177,20 @@ func runC04(c *core.Ctx) {
 		}
 		// message id: the id of the message built for this call
 		isHdrID := func(v ssa.Value) bool { return isFieldOf(v, idF) && isParamRooted(v) }
+		// the message this call sends: the first argument of its Send
+		sent := core.RootOf(core.Canon(cc.send.Common().Args[0]))
 		isOwnID := func(v ssa.Value) bool {
 			v = core.Canon(v)
+			if p, ok := v.(*ssa.Parameter); ok {
+				if a, ok := cc.subst[p]; ok {
+					v = core.Canon(a) // captured through the filter's factory
+				}
+			}
 			if !isFieldOf(v, idF) {
 				return false
 			}
-			// msg.Header.ID of the message created by newMessage in Call
-			r := core.RootOf(v)
-			cr, _ := core.CallResult(r)
-			return cr != nil && cr.Call.StaticCallee() != nil && cr.Call.StaticCallee().Name() == "newMessage"
+			// msg.Header.ID of the message handed to Send
+			return sent != nil && core.RootOf(v) == sent
 		}
 		ok := len(rs) > 0
 		for _, r := range rs {
@@ -205,16 +210,10 @@ func runC04(c *core.Ctx) {
 		}
 		c.Check(single, "C04.routing", "bus.client.Call/filter/single-shot", cc.filter.Pos(), "a matching reply removes the handler (keep=false)",
 			"the reply handler stays registered after its reply: a duplicated or late reply is delivered to a queue nobody reads, or the slot leaks")
-		// the message sent is the one whose id the filter watches
-		sentOK := false
-		if v := core.Canon(cc.send.Common().Args[0]); v != nil {
-			cr, _ := core.CallResult(core.RootOf(v))
-			if cr == nil {
-				cr, _ = core.CallResult(v)
-			}
-			sentOK = cr != nil && cr.Call.StaticCallee() != nil && cr.Call.StaticCallee().Name() == "newMessage"
-		}
-		c.Check(sentOK, "C04.routing", "bus.client.Call/sends-own-message", cc.send.Pos(), "the message sent is the one built by newMessage for this call", "the message sent is not the one whose id the reply filter watches")
+		// the message sent is a message built for this call (not shared, not a parameter)
+		cr, _ := core.CallResult(sent)
+		sentOK := cr != nil && cr.Parent() == cc.fn
+		c.Check(sentOK, "C04.routing", "bus.client.Call/sends-own-message", cc.send.Pos(), "the message sent is one built for this call, and its id is the one the reply filter watches", "the message sent is not built by this call: its id is not the one the reply filter watches")
 	}
 	ruleHandlerBeforeSend(c, a, "C04.routing")
 
